@@ -226,6 +226,104 @@ def process_chunk(args: Tuple[List[Dict[str, Any]], int, int]) -> Dict[str, Any]
     return {"fails": fails, "div": div[:30], "ndiv": len(div), "stats": st}
 
 
+def process_chunk_c04(args: Tuple[List[Dict[str, Any]], int, int]) -> Dict[str, Any]:
+    """C04: every outcome is a library error or a PDU that decodes back to what was requested."""
+    recs, _seed, _chunk_no = args
+    reqs, resps = codec.build(recs)
+    fails: List[Tuple[str, str, Dict[str, Any]]] = []
+    st = {"cases": 0, "accepted": 0, "rejected_lib": 0, "rejected_encode_error": 0, "spec_reject": 0, "wrong_type_cases": 0,
+          "spec_reject_real_accept": 0}
+    for rec, rq_obj, pr_obj in zip(recs, reqs, resps):
+        ps = rec["ps"]
+        rqm = bytes(rec["rq"])
+        entries = [("response", pr_obj, rqm)]
+        if not has_kind(ps, ("MATCHING-REQUEST-PARAM",)):
+            entries.append(("request", rq_obj, None))
+        for (entry, obj, rq) in entries:
+            for c in rec["cases"]:
+                st["cases"] += 1
+                st["spec_reject"] += bool(c["err"])
+                vals = codec.dict_py(ps, c["vals"])
+                st["wrong_type_cases"] += '"bad"' in json.dumps(c["vals"])
+                enc = codec.real_encode(obj, vals, rq)
+                base = {"vals": c["vals"], "spec_err": c["err"], "real_pdu": enc["pdu"].hex() if enc["pdu"] is not None else None,
+                        "real_exc": enc["exc"], "msg": enc.get("msg")}
+
+                def fail(clause: str, extra: Dict[str, Any]) -> None:
+                    if len(fails) < 400:
+                        fails.append(("C04", clause, {"machine": "Codec", "entry": entry, **codec.shape(ps), "detail": {**base, **extra},
+                                                      "ps": ps, "rq": rec["rq"]}))
+                if enc["pdu"] is None:
+                    if not enc["lib"]:
+                        fail("foreign_exception", {})
+                    else:
+                        st["rejected_lib"] += 1
+                        st["rejected_encode_error"] += enc["exc"] == "EncodeError"
+                    continue
+                st["accepted"] += 1
+                st["spec_reject_real_accept"] += bool(c["err"])
+                if enc["overlap"]:
+                    continue
+                dec = codec.real_decode(obj, enc["pdu"])
+                if dec["exc"]:
+                    fail("accepted_but_not_decodable", {"exc": dec["exc"]})
+                elif not codec.agrees(completed(ps, {k: v for k, v in vals.items() if any(p["n"] == k for p in ps)}), dec["vals"]) \
+                        or any(k not in {p["n"] for p in ps} for k in vals):
+                    fail("silently_misrepresented", {"decoded": repr(dec["vals"])[:300], "requested": repr(vals)[:300]})
+    return {"fails": fails, "div": [], "ndiv": 0, "stats": st}
+
+
+def check_c04(tier: str, replay_path: Optional[str]) -> int:
+    from .common import REPO, Verdicts, import_repo, seed
+    import_repo()
+    v = Verdicts("C04", tier)
+    if replay_path:
+        case = json.loads(open(replay_path).read())
+        wd = tlc.workdir("codecreplay")
+        try:
+            rec = _recompute(case, wd, wrong=True)
+        finally:
+            tlc.rmtree(wd)
+        out = process_chunk_c04(([rec], seed(), 0))
+        for (_p, clause, c) in out["fails"]:
+            v.fail(clause, c)
+        return v.finish({"states": 1, "transitions": 1, "traces_validated_against_impl": 1, "samples": [case.get("detail")]},
+                        ["replay of one description"])
+    res, recs = codec.run_model(tier, "c04_")
+    print(f"[C04] TLC: {res.distinct} states, {len(recs)} descriptions, {res.wall_s:.1f}s", flush=True)
+    stats: Dict[str, Any] = {}
+    for (name, block) in ([("c", False)] + ([("pure-python", True)] if tier == "thorough" else [])):
+        n = max(1, min(16, len(recs) // 10 or 1))
+        size = (len(recs) + n - 1) // n
+        chunks = [(recs[i:i + size], seed(), i) for i in range(0, len(recs), size)]
+        with mp.get_context("spawn").Pool(len(chunks), initializer=_init, initargs=(str(REPO), block)) as pool:
+            outs = pool.map(process_chunk_c04, chunks)
+        st: Dict[str, int] = {}
+        for o in outs:
+            for (_p, clause, c) in o["fails"]:
+                c["backend"] = name
+                v.fail(clause, c)
+            for k, x in o["stats"].items():
+                st[k] = st.get(k, 0) + x
+        stats[name] = st
+    print(f"[C04] replay: {stats}", flush=True)
+    s0 = stats["c"]
+    if s0["accepted"] == 0 or s0["rejected_lib"] == 0 or s0["wrong_type_cases"] == 0:
+        raise tlc.MachineryError(f"vacuity: {s0}")
+    ncases = sum(len(r["cases"]) for r in recs)
+    cov = {"states": res.distinct, "transitions": res.generated, "traces_validated_against_impl": s0["cases"],
+           "evaluations": s0["cases"], "distinct_nontrivial": ncases,
+           "rule": "the description families of the codec model with value alphabets widened to the wrong: every integer in "
+                   "[-2^n-1, 2^n+1] for n <= 8, the range boundaries up to 64 bits, byte fields and strings one unit shorter "
+                   "and longer, wrongly typed objects, omitted required and unknown parameters; each case executed on the real "
+                   "encoder: outcome must be an OdxError or a PDU that decodes to the request",
+           "exhaustive": True, "descriptions": len(recs), "cases": ncases, "replay": stats,
+           "samples": [{"ps": [[p["k"], p["n"]] for p in recs[0]["ps"]], "case": recs[0]["cases"][0]["vals"]}]}
+    return v.finish(cov, ["TLC and the CommunityModules", "the reference's own accept/reject verdict is NOT the oracle (a stricter "
+                          "encoder is fine); OdxError (not only EncodeError) counts as the library's own error type",
+                          "the ODX emitter and the library's loader"])
+
+
 def replay(recs: List[Dict[str, Any]], seed: int, block_c: bool, workers: int = 16) -> Dict[str, Any]:
     from .common import REPO
     n = max(1, min(workers, len(recs) // 20 or 1))
@@ -300,7 +398,7 @@ def check(prop: str, tier: str, replay_path: Optional[str]) -> int:
                           "the ODX emitter and the library's loader", "Python struct for IEEE-754 patterns"])
 
 
-def _recompute(case: Dict[str, Any], wd: Any) -> Dict[str, Any]:
+def _recompute(case: Dict[str, Any], wd: Any, wrong: bool = False) -> Dict[str, Any]:
     """Re-run the reference on the single description of a replay file."""
     ps_json = json.dumps(case["ps"])
     (wd / "desc.json").write_text(json.dumps({"ps": case["ps"], "rq": case["rq"]}))
@@ -308,7 +406,7 @@ def _recompute(case: Dict[str, Any], wd: Any) -> Dict[str, Any]:
         "---- MODULE MCR ----\nEXTENDS MC_Codec, IOUtils\n"
         "TheDesc == JsonDeserialize(IOEnv.DESC_FILE)\n"
         "NextR == Pick(TheDesc) \\/ Evaluate\nSpecR == Init /\\ [][NextR]_vars\n====\n")
-    (wd / "MCR.cfg").write_text("SPECIFICATION SpecR\nINVARIANT Emit\n")
+    (wd / "MCR.cfg").write_text(f"CONSTANT Wrong = {'TRUE' if wrong else 'FALSE'}\nSPECIFICATION SpecR\nINVARIANT Emit\n")
     res = tlc.run("MCR.tla", "MCR.cfg", cwd=wd, workers=1, env={"DESC_FILE": str(wd / "desc.json")})
     recs = list(res.json_lines())
     if len(recs) != 1:
